@@ -47,7 +47,8 @@ PROBES = ["waiter_parked_on_thread_lock_during_swap", "two_first_starts_racing",
           "child_acquires_while_parent_thread_holds", "grandchild_started",
           "nested_reentrant_call", "line_level_preemption", "contended_acquire",
           "query_while_other_task_waits", "fork", "spawn", "screen_redraw_step",
-          "reply_later_than_timeout", "stale_reply_waiting_in_queue", "foreign_reply_seen_by_query"]
+          "reply_later_than_timeout", "stale_reply_waiting_in_queue", "foreign_reply_seen_by_query",
+          "first_start_with_queries_disabled"]
 COMPONENTS = {
     "real": ["term_image.utils.lock_tty / query_terminal / read_tty / write_tty / get_cell_size",
              "_process_start_wrapper / _process_run_wrapper and the import-time Process patching "
@@ -107,6 +108,10 @@ def gen_program(ch, depth, budget, mode="getters"):
             # replies later than the timeout: plain reads and getters would legitimately pick
             # up stray bytes, so only attributable queries run in these worlds
             kinds = [(3, "probe"), (4, "query"), (2, "late_query"), (1, "write")]
+        elif mode == "noquery":
+            # queries are disabled before the first Process.start(): the functions
+            # synchronized on the terminal lock stay synchronized all the same
+            kinds = [(5, "probe"), (2, "write"), (2, "read")]
         elif mode == "getters":
             kinds += [(2, "colors"), (1, "namever")]
         elif depth == 0:
@@ -155,7 +160,7 @@ def run(ch, ctx, fault=None):
     tty.delay_fn = (lambda kind: ch.int("delay", 0, dmax)) if dmax else (lambda kind: 0)
     budget = [ch.int("procs", 0, 2)]
     n_root = ch.int("root_threads", 1, 4)
-    mode = ch.pick("mode", ("getters", "getters", "screen", "screen", "late"))
+    mode = ch.pick("mode", ("getters", "getters", "screen", "screen", "late", "noquery"))
     programs = [gen_program(ch, 0, budget, mode) for _ in range(n_root)]
     if k.policy == "pct":
         k.pct_points = tuple(sorted(ch.int("pctp", 1, 400) for _ in range(ch.int("pctd", 1, 3))))
@@ -184,6 +189,9 @@ def run(ch, ctx, fault=None):
         # warm the memoized getters before concurrency starts (as the docs advise)
         u0.get_terminal_name_version()
         u0.get_fg_bg_colors()
+        if mode == "noquery":
+            w.ti.disable_queries()
+            ctx.probe("first_start_with_queries_disabled")
 
         # the urwid screen of process 0: its draw_screen / write / flush are synchronized on
         # the terminal lock, so nobody else may touch the terminal inside its synchronized-
